@@ -58,6 +58,8 @@ structure MsgD where
   /-- names of the nested types in `nested_type` order -/
   nested : List String := []
   mapEntry : Bool := false
+  /-- `options.message_set_wire_format`, if the option is written -/
+  messageSet : Option Bool := none
   deriving Repr, Inhabited
 
 structure MethodD where
@@ -269,9 +271,8 @@ def buildMembers (nm : Naming) (f : FileA) (syn : Syn) (rec : BodyRec) (scope : 
     (fd :: fs, (g.name, mo) :: ms, e ++ es)
 
 /-- one iteration of the `for _, decl := range body.Decls` loop of `addMessageBody` -/
-def buildElem (nm : Naming) (f : FileA) (syn : Syn) (rec : BodyRec) (fq : String) (depth : Nat)
+def buildElem (nm : Naming) (f : FileA) (syn : Syn) (rec : BodyRec) (maxTag : Nat) (fq : String) (depth : Nat)
     (acc : BodyAcc) (e : Elem) : BodyAcc :=
-  let maxTag := fieldMax
   let m := acc.m
   match e with
   | .enum i =>
@@ -321,8 +322,14 @@ def buildElem (nm : Naming) (f : FileA) (syn : Syn) (rec : BodyRec) (fq : String
     { acc with m := { m with reservedNames := names }, errs := acc.errs ++ ee }
   | _ => acc
 
+/-- the values of the `message_set_wire_format` options of a body, in order (the first pass of
+    `addMessageBody` collects ALL options before anything else is looked at) -/
+def msgSetOptions (elems : List Elem) : List Bool :=
+  elems.filterMap (fun e => match e with | .msgSet b => some b | _ => none)
+
 /-- `asMessageDescriptor` / the message half of `asGroupDescriptors`: `checkDepth`, then
-    `addMessageBody` and `processProto3OptionalFields`. Recursion on `fuel` (nesting depth). -/
+    `addMessageBody` (options first: `isMessageSetWireFormat` decides `maxTag` for the WHOLE body,
+    wherever the option stands) and `processProto3OptionalFields`. Recursion on `fuel` (nesting). -/
 def buildBody (nm : Naming) (f : FileA) (syn : Syn) : Nat → BodyRec
   | 0, _, _, _, _ => default
   | fuel + 1, scope, name, elems, depth =>
@@ -331,9 +338,23 @@ def buildBody (nm : Naming) (f : FileA) (syn : Syn) : Nat → BodyRec
       -- "message nesting depth must be less than 32": the body is not processed
       { msgs := [{ fullName := fq, name := name }], errs := ["depth"] }
     else
-      let acc := elems.foldl (buildElem nm f syn (buildBody nm f syn fuel) fq depth) { m := { fullName := fq, name := name } }
-      let m := if syn == .proto3 then processProto3Optional nm acc.m else acc.m
-      { msgs := m :: acc.kids, errs := acc.errs }
+      let opts := msgSetOptions elems
+      if opts.length > 1 then
+        -- `FindOption`: "option message_set_wire_format cannot be defined more than once"; return
+        { msgs := [{ fullName := fq, name := name }], errs := ["option-dup"] }
+      else
+        let isSet := opts == [true]
+        let maxTag := if isSet then messageSetMax else fieldMax
+        let e0 : List Rule := if isSet && syn == .proto3 then ["msgset-proto3"] else []
+        let acc := elems.foldl (buildElem nm f syn (buildBody nm f syn fuel) maxTag fq depth)
+          { m := { fullName := fq, name := name, messageSet := opts.head? }, errs := e0 }
+        let e1 : List Rule :=
+          if isSet then
+            (if acc.m.fields.isEmpty then [] else ["msgset-field"]) ++
+            (if acc.m.extRanges.isEmpty then ["msgset-no-ext-range"] else [])
+          else []
+        let m := if syn == .proto3 then processProto3Optional nm acc.m else acc.m
+        { msgs := m :: acc.kids, errs := acc.errs ++ e1 }
 
 /-- `fillInMissingLabel` -/
 def fillLabel (f : FieldD) : FieldD :=
